@@ -21,8 +21,9 @@ pub const ARENA_CELLS: usize = 200;
 pub enum Pending {
     /// About to start command `k`; the scheduler decides whether it is enabled.
     Cmd(usize),
-    /// Atomic access; `weak` = compare_exchange_weak (may be failed spuriously).
-    Acc { weak: bool },
+    /// Atomic access; `weak` = compare_exchange_weak (may be failed spuriously); `stale` = the Relaxed
+    /// first read of a storage on the fast path (container index): may be answered with an old value.
+    Acc { weak: bool, stale: Option<usize> },
     Rc,
     Alloc,
     Exit,
@@ -49,6 +50,8 @@ pub struct World {
     pub clock: u64,
     pub log: Vec<String>,
     pub storages: Vec<usize>,
+    /// Values each storage held before (what writers replaced): candidates for a stale Relaxed read.
+    pub store_hist: Vec<Vec<usize>>,
     pub nodes: Vec<verif::NodeAddrs>,
     pub head_addr: usize,
     pub steps: u64,
@@ -87,6 +90,7 @@ pub fn init_world(nthreads: usize) {
         clock: 0,
         log: Vec::new(),
         storages: Vec::new(),
+        store_hist: Vec::new(),
         nodes: Vec::new(),
         head_addr: verif::list_head_addr(),
         steps: 0,
@@ -308,9 +312,17 @@ fn hook_pre(acc: &Access) -> Decision {
         None => Decision::Proceed,
         Some(me) => {
             let weak = acc.op == Op::CasWeak;
-            let x = yield_point(me, Pending::Acc { weak });
+            // the first (Relaxed) read of the stored pointer in HybridProtection::attempt
+            let stale = if acc.op == Op::Load && acc.ord == std::sync::atomic::Ordering::Relaxed && acc.site.file().ends_with("hybrid.rs") {
+                with_world(|w| w.storages.iter().position(|&a| a == acc.addr))
+            } else {
+                None
+            };
+            let x = yield_point(me, Pending::Acc { weak, stale });
             if weak && x == 1 {
                 Decision::SpuriousFail
+            } else if stale.is_some() && x >= 2 {
+                Decision::Stale((x - 2) as usize)
             } else {
                 Decision::Proceed
             }
@@ -475,6 +487,14 @@ fn hook_post(acc: &Access, old: usize, ok: bool) {
             if ok { 1 } else { 0 }
         );
         w.log.push(line);
+        if let Class::Store(c) = cl {
+            if matches!(acc.op, Op::Swap | Op::Cas | Op::CasWeak) && ok {
+                while w.store_hist.len() <= c {
+                    w.store_hist.push(Vec::new());
+                }
+                w.store_hist[c].push(old);
+            }
+        }
         // path statistics
         let file = acc.site.file();
         let key: Option<&'static str> = if file.ends_with("fast.rs") && acc.op == Op::Swap {
